@@ -34,7 +34,7 @@ LENLIKE = ('len', 'call')
 
 def has_size_leaf(t):
     for u in subterms(t):
-        if u[0] == 'len': return True
+        if u[0] == 'len' or u[0] == 'Ssum': return True
         if u[0] == 'call' and u[1] in ('elen', 'replen', 'pkglen_len', 'size_of_val', 'size_of'): return True
     return False
 
@@ -52,6 +52,7 @@ def only_memory_sizes(t):
         # 16-bit quantities cannot carry a >= 32-bit total over the edge on their own
         return nm.endswith(MEM_SUFFIX) or t in MEM_ATOMS or rng(t)[1] <= 0xffff
     if k == 'lin': return all(only_memory_sizes(u) for u, _ in t[1])
+    if k == 'Ssum': return only_memory_sizes(t[1]) and only_memory_sizes(t[3])
     if k in ('mul', 'trunc', 'ite', 'and', 'shr', 'div', 'rem'):
         return all(only_memory_sizes(x) for x in t[1:] if isinstance(x, tuple) and x and isinstance(x[0], str) and x[0] not in ('isvar', 'eq', 'lt', 'le', 'bnot', 'band', 'bor'))
     return False
